@@ -16,11 +16,13 @@ META = {
     "history; composition lemma for any relation between input- and output-transfer sequences); lock-step "
     "correspondence with the real components in pysim, ready/valid/payload driven and sampled as plain wires",
     "level_text": "c29_stable, c29_once_in_order, c29_write_ready (StreamSource), c29_sink_read, c29_sink_peek, "
-    "c29_sink_history (StreamSink), c29_wrapper_ports, c29_wrapper_preserves (StreamModuleWrapper, any module, any "
+    "c29_sink_history, c29_sink_two_callers (StreamSink), c29_one_writer, c29_wrapper_ports, c29_wrapper_preserves (StreamModuleWrapper, any module, any "
     "stream specification) are proved for every history of method attempts and handshake wires; the models are tied "
     "to the code by cycle-exact comparison of valid/payload/ready wires, method ready/done bits and returned data for "
     "several payload shapes, random and adversarial (toggling, stalling, state-dependent) consumers/producers and "
-    "four wrapped modules (combinational pass-through, register stage, half-throughput buffer, duplicator)",
+    "four wrapped modules (combinational pass-through, register stage, half-throughput buffer, duplicator), also with "
+    "input and output payload shapes that differ (unsigned/signed, struct/flat of equal width); every exclusive method "
+    "(write, read) is driven by TWO independent callers and peek by two, through the real TransactionManager",
     "level_note": "trusted: Lean kernel, axioms propext/Quot.sound; Amaranth semantics, wiring.connect and pysim; the "
     "harness glue. The wrapped module is arbitrary in the theorems; in the correspondence it is one of four small "
     "Amaranth modules defined in the harness (with Lean counterparts). Payload is the flattened value.",
@@ -46,20 +48,50 @@ def _v(x):
 
 # ------------------------------------------------------------------ wrapped stream modules (harness-defined)
 
+SHAPE_W = {"u1": 1, "u4": 4, "u8": 8, "s8": 8, "s4": 4, "st35": 8}
 
-def _make_mod(kind: str, w: int, k: int):
+
+def _mshape(name: str):
+    from amaranth import signed, unsigned
+    from amaranth.lib.data import StructLayout
+
+    if name == "st35":
+        return StructLayout({"a": 3, "b": 5})
+    return (signed if name[0] == "s" else unsigned)(int(name[1:]))
+
+
+def shape_name(sh) -> str:
+    """canonical name of an Amaranth shape (what a Method layout field / stream payload declares)"""
+    from amaranth import Shape
+    from amaranth.lib.data import StructLayout
+
+    if isinstance(sh, StructLayout):
+        return "st" + "".join(str(Shape.cast(v).width) for v in sh.members.values())
+    c = Shape.cast(sh)
+    return ("s" if c.signed else "u") + str(c.width)
+
+
+def _make_mod(kind: str, w: int, k: int, ish: str, osh: str):
     from amaranth import Module, Signal
     from amaranth.lib import stream, wiring
     from amaranth.lib.wiring import In, Out
 
     class Base(wiring.Component):
         def __init__(self):
-            super().__init__({"i": In(stream.Signature(w)), "o": Out(stream.Signature(w))})
+            super().__init__({"i": In(stream.Signature(_mshape(ish))), "o": Out(stream.Signature(_mshape(osh)))})
+
+        @property
+        def ip(self):
+            return _v(self.i.payload)
+
+        @property
+        def op(self):
+            return _v(self.o.payload)
 
     class Pass(Base):  # Lean: passMod w k
         def elaborate(self, platform):
             m = Module()
-            m.d.comb += [self.o.valid.eq(self.i.valid), self.o.payload.eq(self.i.payload + k), self.i.ready.eq(self.o.ready)]
+            m.d.comb += [self.o.valid.eq(self.i.valid), self.op.eq(self.ip + k), self.i.ready.eq(self.o.ready)]
             return m
 
     class Reg(Base):  # Lean: regMod w k
@@ -67,7 +99,7 @@ def _make_mod(kind: str, w: int, k: int):
             m = Module()
             m.d.comb += self.i.ready.eq(~self.o.valid | self.o.ready)
             with m.If(self.i.valid & self.i.ready):
-                m.d.sync += [self.o.valid.eq(1), self.o.payload.eq(self.i.payload + k)]
+                m.d.sync += [self.o.valid.eq(1), self.op.eq(self.ip + k)]
             with m.Elif(self.o.ready):
                 m.d.sync += self.o.valid.eq(0)
             return m
@@ -79,7 +111,7 @@ def _make_mod(kind: str, w: int, k: int):
             m.d.sync += phase.eq(~phase)
             m.d.comb += self.i.ready.eq(~self.o.valid & phase)
             with m.If(self.i.valid & self.i.ready):
-                m.d.sync += [self.o.valid.eq(1), self.o.payload.eq(self.i.payload)]
+                m.d.sync += [self.o.valid.eq(1), self.op.eq(self.ip)]
             with m.Elif(self.o.ready):
                 m.d.sync += self.o.valid.eq(0)
             return m
@@ -91,7 +123,7 @@ def _make_mod(kind: str, w: int, k: int):
             m.d.comb += [self.o.valid.eq(cnt != 0), self.i.ready.eq(cnt == 0)]
             with m.If(cnt == 0):
                 with m.If(self.i.valid):
-                    m.d.sync += [cnt.eq(2), self.o.payload.eq(self.i.payload)]
+                    m.d.sync += [cnt.eq(2), self.op.eq(self.ip)]
             with m.Elif(self.o.ready):
                 m.d.sync += cnt.eq(cnt - 1)
             return m
@@ -99,9 +131,32 @@ def _make_mod(kind: str, w: int, k: int):
     return {"pass": Pass, "reg": Reg, "stutter": Stutter, "dup": Dup}[kind]()
 
 
+def _dual(inner, names):
+    """two independent callers (method aliases, one AdapterTrans each) for every method in `names`"""
+    from amaranth import Elaboratable
+    from transactron import Method, TModule
+
+    class Dual(Elaboratable):
+        def __init__(self):
+            self.inner = inner
+            for nm in names:
+                for j in (0, 1):
+                    mm = Method.like(getattr(inner, nm), name=f"{nm}{j}")
+                    mm.provide(getattr(inner, nm))
+                    setattr(self, f"{nm}{j}", mm)
+
+        def elaborate(self, platform):
+            m = TModule()
+            m.submodules.inner = self.inner
+            return m
+
+    return Dual()
+
+
 # ------------------------------------------------------------------ implementation runners
 
 _sims: dict[tuple, CompSim] = {}
+_prio: dict[tuple, dict] = {}
 
 
 def _sim(key: tuple) -> CompSim:
@@ -109,13 +164,39 @@ def _sim(key: tuple) -> CompSim:
         from transactron.lib.stream import StreamModuleWrapper, StreamSink, StreamSource
 
         if key[0] == "source":
-            _sims[key] = CompSim(lambda: StreamSource(_shape(key[1])))
+            _sims[key] = CompSim(lambda: _dual(StreamSource(_shape(key[1])), ["write"]))
         elif key[0] == "sink":
-            _sims[key] = CompSim(lambda: StreamSink(_shape(key[1])))
+            _sims[key] = CompSim(lambda: _dual(StreamSink(_shape(key[1])), ["read", "peek"]))
         else:
-            _, kind, w, k = key
-            _sims[key] = CompSim(lambda: StreamModuleWrapper(_make_mod(kind, w, k)))
+            _, kind, w, k, ish, osh = key
+            _sims[key] = CompSim(lambda: _dual(StreamModuleWrapper(_make_mod(kind, w, k, ish, osh)), ["write", "read"]))
     return _sims[key]
+
+
+def _first_single(tr, a, b):
+    for r in tr:
+        x, y = r[(a,)] is not None, r[(b,)] is not None
+        if x != y:
+            return int(y)
+    return 0
+
+
+def prio(key: tuple) -> dict:
+    """which of the two callers the real TransactionManager prefers when both attempt (fixed per elaborated circuit;
+    an artefact of the manager's ordering, so it is probed, not predicted)"""
+    if key not in _prio:
+        sim = _sim(key)
+        d = sim.dut.inner
+        if key[0] == "source":
+            tr = sim.run([{"write0": 0, "write1": 0}] * 3)
+            _prio[key] = {"wp": _first_single(tr, "write0", "write1")}
+        elif key[0] == "sink":
+            tr = sim.run([{"read0": 0, "read1": 0}] * 3, pre_cycle=lambda ctx, k: ctx.set(d.i.valid, 1))
+            _prio[key] = {"rp": _first_single(tr, "read0", "read1")}
+        else:
+            tr = sim.run([{"write0": 0, "write1": 0, "read0": 0, "read1": 0}] * 10)
+            _prio[key] = {"wp": _first_single(tr, "write0", "write1"), "rp": _first_single(tr, "read0", "read1")}
+    return _prio[key]
 
 
 def _parse(op: str) -> dict:
@@ -126,62 +207,74 @@ def _opt(v):
     return None if v == "-" else int(v)
 
 
+def _key(d: dict) -> tuple:
+    if d["comp"] == "wrap":
+        return ("wrap", d["mod"], d["w"], d["k"], d["ish"], d["osh"])
+    return (d["comp"], d["shape"])
+
+
 def impl(case: Case) -> list[str]:
     d = case.desc
-    ins = [_parse(o) for o in case.ops]
-    out = ["ok"]
+    sim = _sim(_key(d))
+    dut = sim.dut.inner
+    cyc = [o for o in case.ops if o.startswith("cyc")]
+    ins = [_parse(o) for o in cyc]
+    f = lambda v: "-" if v is None else str(v)  # noqa: E731
+    b = lambda v: 0 if v is None else 1  # noqa: E731
+    lines = []
     if d["comp"] == "source":
-        sim = _sim(("source", d["shape"]))
-        dut = sim.dut
 
         def pre(ctx, k):
             ctx.set(dut.o.ready, int(ins[k]["rdy"]))
 
         tr = sim.run(
-            [{"write": _opt(i["w"])} for i in ins],
-            extra=lambda x: [x.o.valid, _v(x.o.payload), x.write.ready],
+            [{"write0": _opt(i["w0"]), "write1": _opt(i["w1"])} for i in ins],
+            extra=lambda x: [x.inner.o.valid, _v(x.inner.o.payload), x.inner.write.ready],
             pre_cycle=pre,
         )
         for r in tr:
             e = r["_extra"]
-            out.append(f"valid={e[0]} payload={e[1]} wrdy={e[2]} w={0 if r[('write',)] is None else 1}")
+            lines.append(f"valid={e[0]} payload={e[1]} wrdy={e[2]} w0={b(r[('write0',)])} w1={b(r[('write1',)])}")
     elif d["comp"] == "sink":
-        sim = _sim(("sink", d["shape"]))
-        dut = sim.dut
 
         def pre(ctx, k):
             ctx.set(dut.i.valid, int(ins[k]["v"]))
             ctx.set(_v(dut.i.payload), int(ins[k]["p"]))
 
         tr = sim.run(
-            [{"read": 0 if i["r"] == "1" else None, "peek": 0 if i["k"] == "1" else None} for i in ins],
-            extra=lambda x: [x.i.ready],
+            [{f"{m}{j}": 0 if i[f"{m[0] if m == 'read' else 'k'}{j}"] == "1" else None for m in ("read", "peek") for j in (0, 1)} for i in ins],
+            extra=lambda x: [x.inner.i.ready],
             pre_cycle=pre,
         )
-        f = lambda v: "-" if v is None else str(v)  # noqa: E731
         for r in tr:
-            out.append(f"rdy={r['_extra'][0]} r={f(r[('read',)])} k={f(r[('peek',)])}")
+            lines.append(f"rdy={r['_extra'][0]} r0={f(r[('read0',)])} r1={f(r[('read1',)])} k0={f(r[('peek0',)])} k1={f(r[('peek1',)])}")
     else:
-        sim = _sim(("wrap", d["mod"], d["w"], d["k"]))
+        mod = dut.module
+        rd = [sim.tbs[(f"read{j}",)].adapter.data_out.data for j in (0, 1)]  # sampled in the shape the method declares
+        rd = [_v(x) for x in rd]
         tr = sim.run(
-            [{"write": _opt(i["w"]), "read": 0 if i["r"] == "1" else None} for i in ins],
-            extra=lambda x: [
-                x.write.ready,
-                x.module.i.valid,
-                x.module.i.payload,
-                x.module.i.ready,
-                x.module.o.valid,
-                x.module.o.payload,
-                x.module.o.ready,
-            ],
+            [{"write0": _opt(i["w0"]), "write1": _opt(i["w1"]), "read0": 0 if i["r0"] == "1" else None, "read1": 0 if i["r1"] == "1" else None} for i in ins],
+            extra=lambda x: [x.inner.write.ready, mod.i.valid, mod.ip.as_unsigned(), mod.i.ready, mod.o.valid, mod.op, mod.o.ready, *rd],
         )
         for r in tr:
             e = r["_extra"]
-            rd = r[("read",)]
-            out.append(
-                f"wrdy={e[0]} w={0 if r[('write',)] is None else 1} r={'-' if rd is None else rd} "
+            r0 = "-" if r[("read0",)] is None else e[7]
+            r1 = "-" if r[("read1",)] is None else e[8]
+            lines.append(
+                f"wrdy={e[0]} w0={b(r[('write0',)])} w1={b(r[('write1',)])} r0={r0} r1={r1} "
                 f"iv={e[1]} ip={e[2]} ir={e[3]} ov={e[4]} op={e[5]} or={e[6]}"
             )
+    out = ["ok"]
+    it = iter(lines)
+    for o in case.ops:
+        if o.startswith("shape"):
+            wr, rdm = sim.dut.inner.write, sim.dut.inner.read
+            out.append(
+                f"shape w={shape_name(wr.layout_in.members['data'])} r={shape_name(rdm.layout_out.members['data'])} "
+                f"mi={shape_name(mod.i.payload.shape())} mo={shape_name(mod.o.payload.shape())}"
+            )
+        else:
+            out.append(next(it))
     return out
 
 
@@ -190,8 +283,14 @@ def impl(case: Case) -> list[str]:
 
 def monitor(case: Case, out: list[str]):
     d = case.desc
-    ins = [_parse(o) for o in case.ops]
-    obs = [dict(x.split("=") for x in o.split()) for o in out[1:]]
+    pairs = [(op, o) for op, o in zip(case.ops, out[1:])]
+    for op, o in pairs:
+        if op.startswith("shape"):
+            t = dict(x.split("=") for x in o.split()[1:])
+            if t["w"] != t["mi"] or t["r"] != t["mo"]:
+                return f"wrapper method layouts (write {t['w']}, read {t['r']}) differ from the module's payload shapes (i {t['mi']}, o {t['mo']})"
+    ins = [_parse(op) for op, _ in pairs if op.startswith("cyc")]
+    obs = [dict(x.split("=") for x in o.split()) for op, o in pairs if op.startswith("cyc")]
     if d["comp"] == "source":
         queue: list[int] = []  # written, not yet emitted
         prev = None
@@ -200,8 +299,11 @@ def monitor(case: Case, out: list[str]):
             if prev is not None and prev[0] and not prev[2]:
                 if not valid or payload != prev[1]:
                     return f"cycle {t}: previous cycle had valid=1 payload={prev[1]} ready=0, now valid={valid} payload={payload} (not held stable)"
-            if o["w"] == "1" and i["w"] == "-":
-                return f"cycle {t}: write executed without being attempted"
+            for j in "01":
+                if o["w" + j] == "1" and i["w" + j] == "-":
+                    return f"cycle {t}: write by caller {j} executed without being attempted"
+            if o["w0"] == "1" and o["w1"] == "1":
+                return f"cycle {t}: both callers' writes ({i['w0']}, {i['w1']}) executed in one cycle; the register holds one item"
             if valid:  # what is offered must be the oldest written item not yet emitted
                 if not queue:
                     return f"cycle {t}: valid=1 payload={payload} but no written item outstanding (duplicate/spurious emission)"
@@ -209,8 +311,9 @@ def monitor(case: Case, out: list[str]):
                     return f"cycle {t}: offers {payload}, oldest written item is {queue[0]} (order/loss)"
                 if ready:  # a transfer
                     queue.pop(0)
-            if o["w"] == "1":
-                queue.append(int(i["w"]))
+            for j in "01":
+                if o["w" + j] == "1":
+                    queue.append(int(i["w" + j]))
             if len(queue) > 1:
                 return f"cycle {t}: {len(queue)} written items outstanding {queue}: one of them can never be emitted in order (loss)"
             prev = (valid, payload, ready)
@@ -218,21 +321,31 @@ def monitor(case: Case, out: list[str]):
     if d["comp"] == "sink":
         for t, (i, o) in enumerate(zip(ins, obs)):
             v, p = int(i["v"]), int(i["p"])
-            rex = o["r"] != "-"
-            if rex != (i["r"] == "1" and v == 1):
-                return f"cycle {t}: read attempted={i['r']} valid={v} executed={int(rex)} (read must be ready iff valid)"
-            if rex and int(o["r"]) != p:
-                return f"cycle {t}: read returned {o['r']}, payload on the stream is {p}"
-            if int(o["rdy"]) != int(rex):
-                return f"cycle {t}: i.ready={o['rdy']} but read executed={int(rex)} (peek={i['k']}): consumption without read / read without consumption"
-            kex = o["k"] != "-"
-            if kex != (i["k"] == "1" and v == 1):
-                return f"cycle {t}: peek attempted={i['k']} valid={v} executed={int(kex)}"
-            if kex and int(o["k"]) != p:
-                return f"cycle {t}: peek returned {o['k']}, payload on the stream is {p}"
+            got = [j for j in "01" if o["r" + j] != "-"]
+            for j in got:
+                if i["r" + j] != "1":
+                    return f"cycle {t}: read by caller {j} executed without being attempted"
+                if int(o["r" + j]) != p:
+                    return f"cycle {t}: read returned {o['r' + j]} to caller {j}, payload on the stream is {p}"
+            want = int(v == 1 and (i["r0"] == "1" or i["r1"] == "1"))
+            if len(got) != want:
+                return (
+                    f"cycle {t}: valid={v}, read attempted by callers {[j for j in '01' if i['r' + j] == '1']}, "
+                    f"payload delivered to {len(got)} caller(s) {got}: every transferred payload must be delivered exactly once "
+                    f"(read ready iff valid)"
+                )
+            if int(o["rdy"]) != len(got):
+                return f"cycle {t}: i.ready={o['rdy']} (handshakes) but {len(got)} payload(s) delivered to readers (peek attempts {i['k0']}{i['k1']})"
+            for j in "01":
+                kex = o["k" + j] != "-"
+                if kex != (i["k" + j] == "1" and v == 1):
+                    return f"cycle {t}: peek by caller {j} attempted={i['k' + j]} valid={v} executed={int(kex)}"
+                if kex and int(o["k" + j]) != p:
+                    return f"cycle {t}: peek returned {o['k' + j]}, payload on the stream is {p}"
         return None
     # wrapper
     w, k, mod = d["w"], d["k"], d["mod"]
+    osigned = d["osh"][0] == "s" and not d["osh"].startswith("st")
     queue = []
     accepted: list[int] = []
     reads: list[int] = []
@@ -245,29 +358,37 @@ def monitor(case: Case, out: list[str]):
             if not queue or queue[0] != ip:
                 return f"cycle {t}: module.i transfer of {ip}, outstanding written items {queue}"
             accepted.append(queue.pop(0))
-        rex = o["r"] != "-"
-        if rex != bool(ov and ordy):
-            return f"cycle {t}: read executed={int(rex)} but module.o transfer={int(bool(ov and ordy))}"
-        if rex != (i["r"] == "1" and ov == 1):
-            return f"cycle {t}: read attempted={i['r']} module.o.valid={ov} executed={int(rex)}"
-        if rex:
-            if int(o["r"]) != op:
-                return f"cycle {t}: read returned {o['r']}, module.o.payload={op}"
+        got = [j for j in "01" if o["r" + j] != "-"]
+        if len(got) != int(bool(ov and ordy)):
+            return f"cycle {t}: {len(got)} read caller(s) {got} received a payload but module.o transfers={int(bool(ov and ordy))} (each transferred payload exactly once)"
+        if len(got) != int(ov == 1 and (i["r0"] == "1" or i["r1"] == "1")):
+            return f"cycle {t}: read attempted {i['r0']}{i['r1']} module.o.valid={ov}, delivered to {got}"
+        for j in got:
+            if int(o["r" + j]) != op:
+                return f"cycle {t}: read returned {o['r' + j]} to caller {j}, module.o.payload={op} (as the module's output shape {d['osh']})"
             reads.append(op)
-        if o["w"] == "1":
-            if i["w"] == "-":
+        ws = [j for j in "01" if o["w" + j] == "1"]
+        if len(ws) > 1:
+            return f"cycle {t}: both callers' writes executed in one cycle"
+        for j in ws:
+            if i["w" + j] == "-":
                 return f"cycle {t}: write executed without being attempted"
-            queue.append(int(i["w"]))
+            queue.append(int(i["w" + j]))
         if len(queue) > 1:
             return f"cycle {t}: {len(queue)} written items outstanding before the module"
         prev = (iv, ip, ir)
         # the wrapped module's own stream semantics, seen through the methods
+
+        def sg(x):
+            x %= 1 << w
+            return x - (1 << w) if osigned and x >= (1 << (w - 1)) else x
+
         if mod in ("pass", "reg"):
-            exp = [(x + k) % (1 << w) for x in accepted]
+            exp = [sg(x + k) for x in accepted]
         elif mod == "stutter":
-            exp = list(accepted)
+            exp = [sg(x) for x in accepted]
         else:
-            exp = [x for x in accepted for _ in (0, 1)]
+            exp = [sg(x) for x in accepted for _ in (0, 1)]
         if reads != exp[: len(reads)]:
             return f"cycle {t}: values read {reads} are not a prefix of the module's semantics applied to accepted writes {exp}"
     return None
@@ -300,6 +421,15 @@ def _ready_pattern(rng, kind: str, n: int, valid_pred):
 READY_KINDS = ["one", "zero_then", "toggle", "rare", "rand", "when_valid", "when_not_valid", "after_valid"]
 
 
+def _two(rng, p_any: float, p_both: float):
+    """attempt pattern of the two callers: (caller0, caller1)"""
+    if rng.random() >= p_any:
+        return 0, 0
+    if rng.random() < p_both:
+        return 1, 1
+    return (1, 0) if rng.random() < 0.5 else (0, 1)
+
+
 def _mk_source(rng, shape: str, kind: str, n: int, pw: float, tag="random") -> Case:
     w = WIDTH[shape]
     hist: list[int] = []  # predicted valid per cycle (stimulus shaping only)
@@ -309,13 +439,14 @@ def _mk_source(rng, shape: str, kind: str, n: int, pw: float, tag="random") -> C
     for t in range(n):
         hist.append(valid)
         r = rd(t)
-        wr = rng.randrange(1 << w) if rng.random() < pw else None
-        ops.append(f"cyc w={'-' if wr is None else wr} rdy={r}")
-        if wr is not None and (not valid or r):
+        a0, a1 = _two(rng, pw, 0.4)
+        ops.append(f"cyc w0={rng.randrange(1 << w) if a0 else '-'} w1={rng.randrange(1 << w) if a1 else '-'} rdy={r}")
+        if (a0 or a1) and (not valid or r):
             valid = 1
         elif r:
             valid = 0
-    return Case("cfg comp=source", ops, {"component": "StreamSource", "comp": "source", "shape": shape, "consumer": kind}, tag)
+    key = ("source", shape)
+    return Case(f"cfg comp=source wp={prio(key)['wp']}", ops, {"component": "StreamSource", "comp": "source", "shape": shape, "consumer": kind}, tag)
 
 
 def _mk_sink(rng, shape: str, n: int, pv: float, pr: float, pk: float, hold: bool, tag="random") -> Case:
@@ -325,55 +456,79 @@ def _mk_sink(rng, shape: str, n: int, pv: float, pr: float, pk: float, hold: boo
     for _ in range(n):
         if not hold or not v:
             v, p = int(rng.random() < pv), rng.randrange(1 << w)
-        r, k = int(rng.random() < pr), int(rng.random() < pk)
-        ops.append(f"cyc v={v} p={p} r={r} k={k}")
-        if hold and v and r:
+        r0, r1 = _two(rng, pr, 0.5)
+        k0, k1 = _two(rng, pk, 0.5)
+        ops.append(f"cyc v={v} p={p} r0={r0} r1={r1} k0={k0} k1={k1}")
+        if hold and v and (r0 or r1):
             v = 0  # a protocol-respecting producer holds the item until it is read
-    return Case("cfg comp=sink", ops, {"component": "StreamSink", "comp": "sink", "shape": shape, "hold": hold}, tag)
+    key = ("sink", shape)
+    return Case(f"cfg comp=sink rp={prio(key)['rp']}", ops, {"component": "StreamSink", "comp": "sink", "shape": shape, "hold": hold}, tag)
 
 
-def _mk_wrap(rng, mod: str, w: int, k: int, n: int, pw: float, pr, tag="random") -> Case:
-    ops = []
+def _mk_wrap(rng, mod: str, w: int, k: int, ish: str, osh: str, n: int, pw: float, pr, tag="random") -> Case:
+    ops = ["shape"]
     for t in range(n):
-        wr = rng.randrange(1 << w) if rng.random() < pw else None
-        r = pr(t) if callable(pr) else int(rng.random() < pr)
-        ops.append(f"cyc w={'-' if wr is None else wr} r={r}")
+        a0, a1 = _two(rng, pw, 0.4)
+        if callable(pr):
+            r0 = r1 = pr(t)
+            if r0 and rng.random() < 0.5:
+                r0, r1 = ((1, 0), (0, 1))[rng.randrange(2)]
+        else:
+            r0, r1 = _two(rng, pr, 0.5)
+        ops.append(f"cyc w0={rng.randrange(1 << w) if a0 else '-'} w1={rng.randrange(1 << w) if a1 else '-'} r0={r0} r1={r1}")
+    key = ("wrap", mod, w, k, ish, osh)
+    pr_ = prio(key)
     return Case(
-        f"cfg comp=wrap mod={mod} w={w} k={k}", ops, {"component": "StreamModuleWrapper", "comp": "wrap", "mod": mod, "w": w, "k": k}, tag
+        f"cfg comp=wrap mod={mod} w={w} k={k} ish={ish} osh={osh} wp={pr_['wp']} rp={pr_['rp']}",
+        ops,
+        {"component": "StreamModuleWrapper", "comp": "wrap", "mod": mod, "w": w, "k": k, "ish": ish, "osh": osh},
+        tag,
     )
+
+
+# (width, k, i shape, o shape): equal shapes, and differing shapes of equal width (unsigned/signed, struct/flat)
+WRAP_CFGS_Q = [(4, 1, "u4", "u4"), (8, 3, "u8", "s8"), (8, 200, "st35", "u8")]
+WRAP_CFGS_T = WRAP_CFGS_Q + [(1, 1, "u1", "u1"), (8, 0, "s8", "u8"), (4, 9, "u4", "s4"), (8, 77, "u8", "st35")]
 
 
 def gen_cases(ctx: Check) -> list[Case]:
     rng = ctx.rng("gen")
     cases: list[Case] = []
-    n = ctx.pick(120, 500)
+    n = ctx.pick(100, 400)
     shapes = ctx.pick(["u1", "u8", "s35"], ["u1", "u4", "u8", "s35"])
     for shape in shapes:
         for kind in READY_KINDS:
-            for pw in (1.0, 0.5, 0.15):
+            for pw in ctx.pick((1.0, 0.5), (1.0, 0.5, 0.15)):
                 cases.append(_mk_source(rng, shape, kind, n, pw, "directed" if kind not in ("rand", "rare") else "random"))
         for pv, pr, pk, hold in [(0.5, 0.5, 0.5, False), (0.9, 0.2, 0.8, True), (0.3, 0.9, 0.3, True), (1.0, 1.0, 1.0, False), (0.6, 0.0, 1.0, True), (0.5, 0.6, 0.0, False)]:
             cases.append(_mk_sink(rng, shape, n, pv, pr, pk, hold))
     for mod in ("pass", "reg", "stutter", "dup"):
-        for w, k in ctx.pick([(4, 1), (8, 3)], [(1, 1), (4, 1), (8, 3), (8, 0)]):
+        for w, k, ish, osh in ctx.pick(WRAP_CFGS_Q, WRAP_CFGS_T):
             for pw, pr in [(1.0, 1.0), (0.5, 0.5), (0.9, 0.2), (0.2, 0.9), (1.0, lambda t: t & 1), (0.7, lambda t: int(t % 7 > 4))]:
-                cases.append(_mk_wrap(rng, mod, w, k, n, pw, pr))
+                cases.append(_mk_wrap(rng, mod, w, k, ish, osh, n, pw, pr))
     if ctx.thorough:
-        # every (write?, ready) history of length <= 6 for the source; every (valid, read, peek) history of length <= 3
-        for L in range(1, 7):
-            for seq in itertools.product(range(4), repeat=L):
-                ops = [f"cyc w={(t + 1) if x & 2 else '-'} rdy={x & 1}" for t, x in enumerate(seq)]
-                cases.append(Case("cfg comp=source", ops, {"component": "StreamSource", "comp": "source", "shape": "u4", "consumer": "exh"}, "exhaustive"))
-        for L in range(1, 4):
+        # every (write?, write?, ready) history of length <= 4 for the source; every (valid, r0, r1, k0, k1) history of length <= 2
+        for L in range(1, 5):
             for seq in itertools.product(range(8), repeat=L):
-                ops = [f"cyc v={x >> 2 & 1} p={t + 3} r={x >> 1 & 1} k={x & 1}" for t, x in enumerate(seq)]
-                cases.append(Case("cfg comp=sink", ops, {"component": "StreamSink", "comp": "sink", "shape": "u4", "hold": False}, "exhaustive"))
+                ops = [f"cyc w0={(t + 1) if x & 4 else '-'} w1={(t + 9) if x & 2 else '-'} rdy={x & 1}" for t, x in enumerate(seq)]
+                cases.append(Case(f"cfg comp=source wp={prio(('source', 'u4'))['wp']}", ops, {"component": "StreamSource", "comp": "source", "shape": "u4", "consumer": "exh"}, "exhaustive"))
+        for L in range(1, 3):
+            for seq in itertools.product(range(32), repeat=L):
+                ops = [f"cyc v={x >> 4 & 1} p={t + 3} r0={x >> 3 & 1} r1={x >> 2 & 1} k0={x >> 1 & 1} k1={x & 1}" for t, x in enumerate(seq)]
+                cases.append(Case(f"cfg comp=sink rp={prio(('sink', 'u4'))['rp']}", ops, {"component": "StreamSink", "comp": "sink", "shape": "u4", "hold": False}, "exhaustive"))
         for mod in ("pass", "reg", "stutter", "dup"):
-            for L in range(1, 6):
-                for seq in itertools.product(range(4), repeat=L):
-                    ops = [f"cyc w={(t + 1) if x & 2 else '-'} r={x & 1}" for t, x in enumerate(seq)]
+            key = ("wrap", mod, 4, 1, "u4", "s4")
+            pr_ = prio(key)
+            for L in range(1, 4):
+                for seq in itertools.product(range(16), repeat=L):
+                    ops = ["shape"] + [f"cyc w0={(t + 1) if x & 8 else '-'} w1={(t + 7) if x & 4 else '-'} r0={x >> 1 & 1} r1={x & 1}" for t, x in enumerate(seq)]
                     cases.append(
-                        Case(f"cfg comp=wrap mod={mod} w=4 k=1", ops, {"component": "StreamModuleWrapper", "comp": "wrap", "mod": mod, "w": 4, "k": 1}, "exhaustive")
+                        Case(
+                            f"cfg comp=wrap mod={mod} w=4 k=1 ish=u4 osh=s4 wp={pr_['wp']} rp={pr_['rp']}",
+                            ops,
+                            {"component": "StreamModuleWrapper", "comp": "wrap", "mod": mod, "w": 4, "k": 1, "ish": "u4", "osh": "s4"},
+                            "exhaustive",
+                        )
                     )
     return cases
 
@@ -386,39 +541,45 @@ def more_cases(case: Case, rng):
         elif d["comp"] == "sink":
             yield _mk_sink(rng, d["shape"], 60, 0.6, 0.5, 0.5, bool(j & 1), "search")
         else:
-            yield _mk_wrap(rng, d["mod"], d["w"], d["k"], 80, rng.choice([1.0, 0.5]), rng.choice([1.0, 0.5, 0.2]), "search")
+            yield _mk_wrap(rng, d["mod"], d["w"], d["k"], d["ish"], d["osh"], 80, rng.choice([1.0, 0.5]), rng.choice([1.0, 0.5, 0.2]), "search")
 
 
 def nontrivial(case: Case, out: list[str]) -> bool:
     d = case.desc
-    ins = [_parse(o) for o in case.ops]
-    obs = [dict(x.split("=") for x in o.split()) for o in out[1:]]
+    pairs = [(op, o) for op, o in zip(case.ops, out[1:]) if op.startswith("cyc")]
+    ins = [_parse(op) for op, _ in pairs]
+    obs = [dict(x.split("=") for x in o.split()) for _, o in pairs]
     if d["comp"] == "source":
         stall = any(o["valid"] == "1" and i["rdy"] == "0" for i, o in zip(ins, obs))
-        b2b = any(o["valid"] == "1" and i["rdy"] == "1" and o["w"] == "1" for i, o in zip(ins, obs))
-        return stall and b2b
+        b2b = any(o["valid"] == "1" and i["rdy"] == "1" and "1" in (o["w0"], o["w1"]) for i, o in zip(ins, obs))
+        both = any(i["w0"] != "-" and i["w1"] != "-" and "1" in (o["w0"], o["w1"]) for i, o in zip(ins, obs))
+        return stall and b2b and both
     if d["comp"] == "sink":
-        both = any(o["r"] != "-" and o["k"] != "-" for o in obs)
-        peek_only = any(o["r"] == "-" and o["k"] != "-" for o in obs)
+        both = any(i["r0"] == "1" and i["r1"] == "1" and i["v"] == "1" for i in ins)
+        peek_only = any(o["r0"] == "-" and o["r1"] == "-" and (o["k0"] != "-" or o["k1"] != "-") for o in obs)
         return both and peek_only
-    return sum(o["r"] != "-" for o in obs) >= 3 and any(o["iv"] == "1" and o["ir"] == "0" for o in obs)
+    contested = any(i["r0"] == "1" and i["r1"] == "1" and (o["r0"] != "-" or o["r1"] != "-") for i, o in zip(ins, obs))
+    return sum((o["r0"] != "-") + (o["r1"] != "-") for o in obs) >= 3 and contested
 
 
 def run(ctx: Check):
     ctx.rule = (
-        "cases = (component, payload shape / wrapped module, history of method attempts and handshake wires); "
-        "non-trivial = source: a stalled cycle (valid, not ready) and a back-to-back write during a transfer; "
-        "sink: read+peek in one cycle and a peek without read; wrapper: >=3 items read and a stall on module.i"
+        "cases = (component, payload shape / wrapped module with its i/o shapes, history of attempts of TWO callers per method "
+        "and of the handshake wires); non-trivial = source: a stalled cycle, a back-to-back write during a transfer and a cycle "
+        "with both writers attempting; sink: both readers attempting on a valid stream and a peek without read; wrapper: >=3 "
+        "items read and a cycle in which both readers attempt and one is served"
     )
     ctx.proof_stage()
     cases = gen_cases(ctx)
     for comp in ("source", "sink", "wrap"):
         ctx.count(f"cases_{comp}", sum(1 for c in cases if c.desc["comp"] == comp))
     ctx.count("cycles", sum(len(c.ops) for c in cases))
+    ctx.note("which of two simultaneously attempting callers is granted is probed on the real circuit (cfg wp=/rp=); the monitor "
+             "accepts either winner")
     if ctx.thorough:
-        ctx.note("exhaustive part: all (write?, ready) histories up to length 6 (source), all (valid, read, peek) histories up to "
-                 "length 3 (sink), all (write?, read) histories up to length 5 for each wrapped module")
-    lockstep(ctx, "stream", "C29", cases, impl, monitor, more_cases, nontrivial, procs=1 if ctx.quick else None)
+        ctx.note("exhaustive part: all (write0?, write1?, ready) histories up to length 4 (source), all (valid, r0, r1, k0, k1) "
+                 "histories up to length 2 (sink), all (write0?, write1?, r0, r1) histories up to length 3 for each wrapped module")
+    lockstep(ctx, "stream", "C29", cases, impl, monitor, more_cases, nontrivial, procs=1)
 
 
 def replay(ctx: Check, body: dict):
